@@ -43,17 +43,18 @@ func Layer(r *ev.Run) {
 	r.Rule += " || wire layer: per round one keystore with keys for a static identity and for the identities AcraServer derives from two application certificates (throw-away PKI), one fake PostgreSQL and one fake MySQL that accept the in-protocol TLS upgrade, and per database three AcraServer instances with a real TLS wrapper: (1) identity from the certificate only, (2) static --client_id plus identity from the certificate, (3) static --client_id with TLS but identity not taken from the certificate. Applications write rows (AcraBlock, AcraStruct and consistently tokenized columns, values with unique markers) in their own sessions - over TLS with a client certificate or in clear - and every kind of session reads all rows back (text and binary protocol), sequentially, interleaved on one server and concurrently: a row protected for another identity than the session's effective one (certificate identity when taken from TLS, static identity otherwise) must not arrive in clear (marker raw/hex in the delivered stream), rows of the effective identity must be revealed"
 	r.Assumptions = append(r.Assumptions, "wire layer: certificates are generated at run time (ECDSA P-256, one CA); client id = acra-server's default extractor (distinguished name, hex converter); OCSP/CRL not configured; MySQL client = go-sql-driver with tls=<config>, PostgreSQL client = pgproto3 over crypto/tls after SSLRequest")
 	rng := gen.New(r.Seed, "c02-proxy")
-	rounds := r.Pick(3, 40)
+	rounds := r.Pick(6, 60)
 	for i := 0; i < rounds; i++ {
 		for _, my := range []bool{false, true} {
 			round(r, gen.New(r.Seed, fmt.Sprintf("c02-proxy-%d-%v-%d", i, my, rng.Int63())), i, my)
 		}
 	}
-	r.RequireAtLeast("proxy_foreign_values_checked_not_in_clear", 150)
-	r.RequireAtLeast("proxy_own_values_revealed", 100)
-	r.RequireAtLeast("proxy_tls_sessions_with_certificate_identity", 12)
-	r.RequireAtLeast("proxy_tls_sessions_on_server_with_static_and_certificate_identity", 4)
-	r.RequireAtLeast("proxy_concurrent_reads_checked", 20)
+	r.RequireAtLeast("proxy_foreign_values_checked_not_in_clear", 2000)
+	r.RequireAtLeast("proxy_own_values_revealed", 1000)
+	r.RequireAtLeast("proxy_tls_sessions_with_certificate_identity", 40)
+	r.RequireAtLeast("proxy_tls_sessions_on_server_with_static_and_certificate_identity", 20)
+	r.RequireAtLeast("proxy_concurrent_reads_checked", 1000)
+	r.RequireAtLeast("proxy_database_side_tls_upgrades", 40)
 	r.RequireSetAtLeast("proxy_databases", 2)
 }
 
@@ -427,16 +428,39 @@ func round(r *ev.Run, rng *gen.Rand, idx int, my bool) {
 		cert string
 		n    int
 	}
-	for _, ws := range []wstep{{cfgs[0], "alpha", 2}, {cfgs[0], "beta", 2}, {cfgs[1], "", 2}, {cfgs[1], "beta", 1}, {cfgs[2], "alpha", 1}, {cfgs[1], "alpha", 1}} {
-		s := connect(ws.cfg, ws.cert)
+	doWrites := func(steps []wstep) bool {
+		for _, ws := range steps {
+			s := connect(ws.cfg, ws.cert)
+			if s == nil {
+				return false
+			}
+			ok := write(s, effective(ws.cfg, ws.cert), ws.n)
+			s.close()
+			if !ok {
+				return false
+			}
+		}
+		return true
+	}
+	// first rows whose owner cannot be in doubt: certificate identities on the certificate-only server, the static identity in clear
+	if !doWrites([]wstep{{cfgs[0], "alpha", 2}, {cfgs[0], "beta", 2}, {cfgs[1], "", 2}}) {
+		return
+	}
+	// the sessions where two identities meet: static id configured, identity taken from the certificate after the TLS upgrade
+	for _, cert := range []string{"beta", "alpha"} {
+		s := connect(cfgs[1], cert)
 		if s == nil {
 			return
 		}
-		ok := write(s, effective(ws.cfg, ws.cert), ws.n)
+		ok := readBoth(s, effective(cfgs[1], cert), cfgs[1].name, "sequential")
 		s.close()
 		if !ok {
 			return
 		}
+	}
+	// more rows, written by TLS sessions on the servers that also have a static identity
+	if !doWrites([]wstep{{cfgs[1], "beta", 1}, {cfgs[2], "alpha", 1}, {cfgs[1], "alpha", 1}}) {
+		return
 	}
 	// --- sequential reads: every configuration x {clear, alpha, beta}
 	for _, c := range cfgs {
